@@ -50,6 +50,9 @@ func (p *Prog) identName(id *ast.Ident) string {
 		if o.Pkg() != nil && o.Pkg() != p.Types {
 			return o.Pkg().Name() + "." + o.Name()
 		}
+		if a, ok := FuncAlias[o]; ok {
+			return a
+		}
 		return o.Name()
 	case *types.PkgName:
 		return o.Imported().Name()
@@ -118,6 +121,12 @@ func (p *Prog) canon(sb *strings.Builder, e ast.Expr) {
 				f := st.Field(idx[i])
 				sb.WriteString("." + f.Name())
 				t = f.Type()
+			}
+			if f, ok := sel.Obj().(*types.Func); ok {
+				if a, ok := FuncAlias[f]; ok {
+					sb.WriteString("." + a)
+					return
+				}
 			}
 			sb.WriteString("." + x.Sel.Name)
 			return
